@@ -336,7 +336,7 @@ func deviation(tms tms20.TileMatrixSet, deepest int) (stats string, units, pixel
 
 func init() {
 	register(&Prop{ID: "C03", Scopes: func(bool) []Scope { return nil }, Extras: []func(*ev.Run, int, int) scopeReport{realSweep("C03"), synthSweepC03},
-		Rule: "state = (accepted built-in set, id z, deepest id z' requested together); for each state 9 anchors (min edge / middle / max edge of the extent per axis) x all four flag combinations x probe polygons of 3x3 pixels of z are snapped by the real code and every returned ordinate of id z is compared with the ideal pixel centre corner + (i+1/2)*cellSize(z)/16 computed in exact rationals from the document; tolerance = the deviation reported by DeviationStats for z' + 2e-10 + 1 ulp; plus synthetic grids with tile width 1/4/256, both corners of origin and non-zero origin; non-trivial = calls that returned"})
+		Rule: "state = (accepted built-in set, id z, deepest id z' requested together); for each state 9 anchors (min edge / middle / max edge of the extent per axis) x all four flag combinations x probe polygons of 3x3 pixels of z are snapped by the real code and every returned ordinate of id z is compared with the ideal pixel centre corner + (i+1/2)*cellSize(z)/16 computed in exact rationals from the document; tolerance = the deviation reported by DeviationStats for z' + 2e-10 + 1 ulp; plus synthetic grids with tile width 1/4/256, both corners of origin, three origins (one whose ordinates differ by no whole number of pixels) and both axis orders of the reference system (x/y, y/x); non-trivial = calls that returned"})
 }
 
 // synthSweepC03: synthetic round grids where the level arithmetic (tile width, factor 16) is exercised:
